@@ -104,7 +104,7 @@ site('expr.c', 'intconstexpr', 'error', 'not an integer constant expression',
      T('stmt', 'switch (h_v) { case h_l: ; }'))
 site('expr.c', 'inttype', 'error', "invalid integer constant suffix '%s'",
      X('1uu', "'uu'"), X('1lul', "'lul'"), X('0x1g', "'g'"), X('1LLL', "'lll'"), X('08', "'8'"), X('1_0', "'_0'"), X('0x', "'x'"),
-     X('1lL', "'ll'", finding='C10-mixed-case-ll-suffix', skip=('*',), note='accepted: the suffix is lower-cased before the comparison'))
+     X('1lL', "'lL'", note='fixed in /repo f6f05dd: the suffix was lower-cased before the comparison'), n=2)
 site('expr.c', 'inttype', 'error', "no suitable type for constant '%s'",
      X('18446744073709551615', "'18446744073709551615'"), X('9223372036854775808', "'9223372036854775808'"),
      X('9223372036854775808ll'))
